@@ -7,35 +7,116 @@ from vp import streams
 from vp.results import Ext
 
 PROPERTY = "C09"
-RULE = ("Model-based TestResult histories (0..4 tests, every outcome kind given as exc_info / details / reason, "
+RULE = ("Model-based TestResult histories (0..6 tests, every outcome kind given as exc_info / details / reason, "
         "0..3 details of 0..4 chunks incl. empty chunks, binary and parameterised text content types, non-ASCII "
         "names and reasons, tags inside/outside tests, explicit time() values or none, a second startTestRun) are "
         "fed to ExtendedToStreamDecorator whose events go to a recorder and to StreamToExtendedDecorator over an "
         "extended recorder; round-trip oracle on the final result plus well-formedness oracle on the stream. "
         "Also generated: one details dict object handed to several calls, fractional and non-UTC times, chunks of 70 kB, chunk boundaries inside characters, upper-case / empty / long / RFC-2231-looking parameter values; a traceback file is accepted only for exc_info outcomes and a reason only for skips given one. "
+        "Third audit: the replayed skip reason is read the way a consumer reads it (decoded with the charset its content type declares); histories whose run was started on demand "
+        "are in half of the cases not closed by a stopTestRun (every bracket must be there all the same) or get an explicit second run; contents that read differently at "
+        "every evaluation, one Content object per detail name for the whole history ('live': the bytes sent must be those of an evaluation made during that very outcome call); "
+        "the same instant under two UTC offsets; reasons of several thousand characters; a bare addSkip(test); details stretched to 12 chunks; word-sized / padded / non-ASCII tags and test ids; "
+        "content types are compared field by field (type, subtype, parameters), not with the tree's ContentType.__eq__. "
+        "Directed exhaustive grid (every seed): offset pairs x run kinds, long and non-ASCII reasons x skip forms, on-demand run then explicit run with run-level tags, "
+        "unclosed runs x outcome kinds, live contents over three tests, 12-chunk details, 8 tests, a shared details dict after a skip with a reason, bare skips, wide tags and ids, every content-type row next to a chunk-less and an all-empty detail. "
         "Non-trivial: >= 2 details with >= 2 chunks, or a parameterised content type, or >= 3 tests; distinct = "
         "distinct canonical history.")
 ASSUMPTIONS = [
     "details whose chunks are all empty need not survive (statement: every non-empty detail); an empty skip reason counts as none",
-    "with no time() value supplied the replayed times are only required to be non-None",
+    "with no time() value supplied nothing is required of the replayed times (they may be invented or absent)",
     "a time() value given before the run has been started (explicitly or on demand) is forgotten by startTestRun, as documented for TestResult.startTestRun",
+    "'the supplied times' is read as the supplied values: same instant and same UTC offset (a stamp normalised to another offset is reported as time-converted); time() values carry TZ information, as TestResult.time documents - naive datetimes are not generated",
+    "on the stream the events of one detail may be cut differently from the chunks the content yields (coalesced, split, empty chunks omitted): required are the identical concatenated bytes, eof on exactly "
+    "the last event of the file, and no more empty events than the content has empty chunks; events of different details may interleave. A detail that yields no bytes at all is still announced "
+    "by (at least) one file event carrying eof - the statement's 'file events of its details' is read as: every detail handed over has some",
+    "the decorator may do what it likes to the details dict it is given as long as every later call still sends what the reporter put in (a key left behind shows as an invented file of the next call that is given the same dict)",
+    "a history whose run was only ever started on demand and is never stopped is well formed (a bare test.run(result) calls neither startTestRun nor stopTestRun): its tests have to be replayed by the time the last call returns",
+    "a lazily evaluated content may be evaluated more than once per outcome call; what is sent has to be the value of one of the evaluations made during that call",
+    "detail names: 'reason' is reserved for the skip reason (DESIGN 11.2: addSkip(test, 'a', details={'reason': ..}) sends two files under one name) - never generated as an ordinary detail; "
+    "text details are valid for the charset they declare",
+    "the content-type rows with a 90-character, an RFC-2231-looking and a non-ASCII parameter value go through email.headerregistry of the running interpreter (CPython 3.12 here): a loss there on another "
+    "interpreter version would be reported as detail-type although the tree is unchanged",
 ]
 
-HIST = H.s_history(max_tests=4, with_control=False, with_startless=False, test_kinds=("case", "case", "placeholder"), max_ops=30, skip_both=True)
+HIST = H.s_history(max_tests=6, with_control=False, with_startless=False, test_kinds=("case", "case", "placeholder"), max_ops=30, skip_both=True)
 OUT = {"success": "addSuccess", "error": "addFailure", "failure": "addFailure", "skip": "addSkip",
        "xfail": "addExpectedFailure", "uxsuccess": "addUnexpectedSuccess"}
 STATUS = {"success": "success", "error": "fail", "failure": "fail", "skip": "skip", "xfail": "xfail", "uxsuccess": "uxsuccess"}
+# spec["wide"]: the four tag letters of the shared generator and the test ids stand for values with blanks, capitals,
+# non-ASCII characters, a new-line, and of some length
+TAGMAP = {"t": "t", "u": "Tag One ", "v": "\u00e9tiquette", "w": "W" * 120}
+WIDE_IDS = [" padded id %d ", "pkg/mod.py::Cls::test[\u00e9-%d]", "Upper.Case_%d", "two\nlines %d"]
+
+
+def _expand(op, spec):
+    """The outcome op as it is performed: details stretched (spec['stretch'] copies of every chunk list) and the reason
+    repeated (payload['reason_rep']) - kept as factors so that specs and replay files stay small."""
+    p = op["payload"]
+    k, rep = spec.get("stretch", 1), p.get("reason_rep", 1)
+    if k == 1 and rep == 1:
+        return op
+    p2 = dict(p)
+    if k != 1:
+        p2["details"] = {n: {"ct": d["ct"], "chunks": list(d["chunks"]) * k} for n, d in p["details"].items()}
+    if rep != 1 and "reason" in p2:
+        p2["reason"] = p["reason"] * rep
+    return dict(op, payload=p2)
+
+
+class _Live:
+    """spec['live']: one Content object per detail name for the whole history (a log attached to every test), and
+    each evaluation of it reads differently: the chunks of the first spec seen under that name plus b'#<n>' at the
+    n-th evaluation.  Every evaluation is recorded."""
+
+    def __init__(self):
+        self.by_name = {}
+
+    def get(self, name, dspec):
+        from testtools.content import Content
+        from testtools.content_type import ContentType
+        ent = self.by_name.get(name)
+        if ent is None:
+            a, b, params = H.CT_SPECS[dspec["ct"]]
+            ent = {"ct": dspec["ct"], "chunks": list(dspec["chunks"]), "log": []}
+
+            def get_bytes(ent=ent):
+                n = len(ent["log"]) + 1
+                ent["log"].append(n)
+                return iter(ent["chunks"] + [b"#%d" % n])
+            ent["content"] = Content(ContentType(a, b, dict(params)), get_bytes)
+            self.by_name[name] = ent
+        return ent
+
+
+def _declared_text(snap):
+    """What a consumer gets from as_text() of a replayed detail: its bytes decoded with the charset the content
+    type declares (ISO-8859-1 when it declares none); None when the type is not text/*."""
+    ct, data = snap[1], snap[2]
+    if getattr(ct, "type", None) != "text" or not isinstance(data, bytes):
+        return None
+    try:
+        return data.decode((getattr(ct, "parameters", None) or {}).get("charset", "ISO-8859-1"), "replace")
+    except LookupError:
+        return None
+
+
+def _ct_fields(ct):
+    return (getattr(ct, "type", None), getattr(ct, "subtype", None), dict(getattr(ct, "parameters", None) or {}))
 
 
 def run_case(spec):
     import testtools
-    from testtools.content_type import ContentType
     vs = []
     # one details dict object per distinct set of attachments, handed to several outcome calls (in half of the
     # histories: chosen from the spec itself so that no extra draw is needed)
-    shared_details = {} if len(spec["ops"]) % 2 else None
-    if len(spec["ops"]) % 4 == 3:
-        shared_details = {"<refill>": {}}
+    share = spec.get("share") or ("refill" if len(spec["ops"]) % 4 == 3 else "dict" if len(spec["ops"]) % 2 else "none")
+    live = _Live() if spec.get("live") else None
+    if live is not None:
+        share = "dict"                # the live contents are handed over through the shared-dict door of outcome_call
+    shared_details = {"none": None, "dict": {}, "refill": {"<refill>": {}}}[share]
+    wide = bool(spec.get("wide"))
+    tagv = (lambda names: [TAGMAP.get(n, n) for n in names]) if wide else list
     ext = Ext()
     rec = streams.Recorder()
     r = testtools.ExtendedToStreamDecorator(testtools.CopyStreamResult([rec, testtools.StreamToExtendedDecorator(ext)]))
@@ -60,14 +141,16 @@ def run_case(spec):
         elif k == "stopTestRun":
             r.stopTestRun()
         elif k == "tags":
-            r.tags(set(op["new"]), set(op["gone"]))
-            tags.change(op["new"], op["gone"])
+            r.tags(set(tagv(op["new"])), set(tagv(op["gone"])))
+            tags.change(tagv(op["new"]), tagv(op["gone"]))
         elif k == "time":
             now = H.ts(op["t"])
             r.time(now)
         elif k == "startTest":
             # the same test id may be reported more than once in a run (re-runs, parametrised scenarios)
             cur = H.make_test(op["i"] % spec.get("id_mod", 99), op["tk"])
+            if wide:
+                cur.id = (lambda v: lambda: v)(WIDE_IDS[op["i"] % len(WIDE_IDS)] % (op["i"] % spec.get("id_mod", 99)))
             mark = len(rec.events)
             r.startTest(cur)
             tags.start_test()
@@ -78,20 +161,37 @@ def run_case(spec):
             e["tags"] = frozenset(tags.current)
             e["stop"] = now
             e["marker"] = "MARK-%d-" % op["marker"]
-            e["out_from"] = len(rec.events)
-            info = H.outcome_call(r, cur, op, shared=shared_details)
-            e["out_to"] = len(rec.events)
+            op = _expand(op, spec)
             p = op["payload"]
+            marks = {}
+            if live is not None and p["form"] in ("details", "details+reasondetail", "reason+details"):
+                ents = {name: live.get(name, d) for name, d in p["details"].items()}
+                marks = {name: len(ent["log"]) for name, ent in ents.items()}
+                # a fresh dict of the same Content objects for every call
+                shared_details[repr(sorted(p["details"].items()))] = {name: ent["content"] for name, ent in ents.items()}
+            e["out_from"] = len(rec.events)
+            if op["kind"] == "skip" and p["form"] == "bare":
+                r.addSkip(cur)
+                info = {"kind": "skip", "details": None, "err": None, "reason": None}
+            else:
+                info = H.outcome_call(r, cur, op, shared=shared_details)
+            e["out_to"] = len(rec.events)
             e["details"] = {}
             e["err"] = info["err"] is not None
             if info["details"] is not None:
-                keys_after = set(info.get("details_live", info["details"]))      # the very dict the reporter handed over
-                want_keys = set(p["details"]) | ({"reason"} if p["form"] == "details+reasondetail" else set())
-                if keys_after != want_keys:
-                    vs.append(V("caller-args", "details-dict-mutated", "the caller's details dict now has keys %r, was %r" % (sorted(keys_after), sorted(want_keys))))
+                # (what the decorator does to the dict it was given is not judged here: the expectation is what the
+                # spec says the reporter put in - a key left behind by an earlier call is an invented file of this one)
                 for name, d in p["details"].items():
+                    if live is not None:
+                        ent = live.by_name[name]
+                        # the value of any evaluation made during this very call
+                        d = {"ct": ent["ct"], "chunks": ent["chunks"]}
+                        cands = [ent["chunks"] + [b"#%d" % n] for n in ent["log"][marks[name]:]]
+                        e.setdefault("live_evals", {})[name] = len(cands)
+                    else:
+                        cands = [list(d["chunks"])]
                     a, b, params = H.CT_SPECS[d["ct"]]
-                    e["details"][name] = (ContentType(a, b, dict(params)), list(d["chunks"]))
+                    e["details"][name] = ((a, b, dict(params)), cands)
                     if len([c for c in d["chunks"]]) >= 2:
                         rich += 1
                     if params:
@@ -100,8 +200,12 @@ def run_case(spec):
         elif k == "stopTest":
             r.stopTest(cur)
             tags.stop_test()
-    if started and not any(op["op"] == "stopTestRun" for op in spec["ops"][-1:]):
-        r.stopTestRun()          # flushes nothing when every test finished; keeps both converters symmetrical
+    explicit = any(op["op"] == "startTestRun" for op in spec["ops"])
+    if started and not any(op["op"] == "stopTestRun" for op in spec["ops"][-1:]) and (explicit or spec.get("close", True)):
+        # flushes nothing when every test finished.  A run that was only ever started on demand (a bare
+        # test.run(result)) has nobody to stop it: with close=False the history ends here, and every bracket has
+        # to be there all the same
+        r.stopTestRun()
     expected = [e for e in expected if "kind" in e]
 
     # ---------------- final result: one bracket per test
@@ -143,30 +247,33 @@ def run_case(spec):
                 vs.append(V("roundtrip", "start-time", "start time %r, supplied %r" % (st_time, e["start"])))
             if e["stop"] is not None and out_time != e["stop"]:
                 vs.append(V("roundtrip", "stop-time", "outcome time %r, supplied %r" % (out_time, e["stop"])))
-            if st_time is None or out_time is None:
-                vs.append(V("roundtrip", "time-missing", "replayed test has no %s time" % ("start" if st_time is None else "stop")))
             det = ctx.get("details") or {}
-            for name, (ct, chunks) in e["details"].items():
-                data = b"".join(chunks)
-                if not data:
+            for name, (ct, cands) in e["details"].items():
+                datas = [b"".join(c) for c in cands]
+                if datas and not any(datas):
                     continue
                 if name not in det:
-                    vs.append(V("roundtrip", "detail-lost", "detail %r (%d bytes) missing after the round trip; have %r" % (name, len(data), sorted(det))))
+                    vs.append(V("roundtrip", "detail-lost", "detail %r (%d bytes) missing after the round trip; have %r" % (name, len(datas[0]) if datas else -1, sorted(det))))
                     continue
-                if det[name][2] != data:
-                    vs.append(V("roundtrip", "detail-bytes", "detail %r bytes %r, sent %r" % (name, det[name][2], data)))
-                if det[name][1] != ct:
-                    vs.append(V("roundtrip", "detail-type", "detail %r content type %r, sent %r" % (name, det[name][0], repr(ct))))
+                if det[name][2] not in datas:
+                    vs.append(V("roundtrip", "detail-bytes", "detail %r bytes %r, sent %r" % (
+                        name, det[name][2][-200:] if isinstance(det[name][2], bytes) else det[name][2],
+                        [d[-200:] for d in datas] or "(the content was not evaluated during the call)")))
+                if _ct_fields(det[name][1]) != ct:
+                    vs.append(V("roundtrip", "detail-type", "detail %r content type %r, sent %r" % (name, det[name][0], ct)))
             if e["err"]:
                 tb = det.get("traceback")
                 if tb is None or e["marker"].encode() not in tb[2]:
                     vs.append(V("roundtrip", "traceback", "exc_info traceback with marker %s not replayed; details %r" % (e["marker"], sorted(det))))
             if e["kind"] == "skip" and e["reason"]:
                 got = ctx.get("reason")
+                how = ""
                 if got is None and "reason" in det:
-                    got = det["reason"][2].decode("utf8", "replace")
+                    # what every consumer does with it: as_text(), i.e. the bytes decoded as the content type declares
+                    got = _declared_text(det["reason"])
+                    how = " (detail 'reason' declared as %s)" % det["reason"][0]
                 if got != e["reason"]:
-                    vs.append(V("roundtrip", "skip-reason", "skip reason %r replayed as %r" % (e["reason"], got)))
+                    vs.append(V("roundtrip", "skip-reason", "skip reason %r replayed as %r%s" % (e["reason"][:80], got if got is None else got[:80], how)))
             # a traceback is only generated from exc_info, a reason only for a skip that was given one
             allowed = ({"traceback"} if e["err"] else set()) | ({"reason"} if e["kind"] == "skip" and e["reason"] is not None else set())
             extra = set(det) - set(e["details"]) - allowed
@@ -204,18 +311,26 @@ def run_case(spec):
             if s["file_name"] not in files:
                 files[s["file_name"]] = []
                 order.append(s["file_name"])
-            elif order[-1] != s["file_name"]:
-                vs.append(V("stream", "interleaved-files", "chunks of %r are not contiguous" % s["file_name"]))
-            files[s["file_name"]].append(s)
-        for name, (ct, chunks) in e["details"].items():
+            files[s["file_name"]].append(s)          # (events of different files may interleave: not judged)
+        for name, (ct, cands) in e["details"].items():
             got = files.get(name)
             if got is None:
                 vs.append(V("stream", "detail-not-sent", "no file events for detail %r" % name))
                 continue
-            sent = [g["file_bytes"] for g in got]
-            want = list(chunks) if chunks else [b""]
-            if sent != want:
-                vs.append(V("stream", "chunks", "detail %r sent as chunks %r, content yields %r" % (name, sent, want)))
+            sent = [g["file_bytes"] or b"" for g in got]
+            joined = b"".join(sent)
+            match = [c for c in cands if b"".join(c) == joined]
+            if not match:
+                vs.append(V("stream", "chunks", "detail %r sent as %r, content yields %r" % (
+                    name, [x[-60:] for x in sent][:14], [[x[-60:] for x in c][:14] for c in cands] or "(it was not evaluated during the call)")))
+            else:
+                # the events may be cut differently from the chunks, but an empty event has to stand for an empty
+                # chunk (for a content without any chunk: the one event that announces it)
+                n_empty = sum(1 for x in sent if not x)
+                allowed_empty = max(max(sum(1 for x in c if not x) for c in match), 0 if joined else 1)
+                if n_empty > allowed_empty:
+                    vs.append(V("stream", "chunks", "detail %r sent with %d empty events, the content has %d empty chunks: %r" % (
+                        name, n_empty, allowed_empty, [x[-60:] for x in sent][:14])))
             eofs = [g["eof"] for g in got]
             if eofs != [False] * (len(got) - 1) + [True]:
                 vs.append(V("stream", "eof", "detail %r eof flags %r (must be set exactly on the last chunk)" % (name, eofs)))
@@ -226,17 +341,152 @@ def run_case(spec):
             if [g["eof"] for g in got][-1] is not True or any(g["eof"] for g in got[:-1]):
                 vs.append(V("stream", "eof", "file %r eof flags %r" % (name, [g["eof"] for g in got])))
     nt = rich >= 2 or param_ct or len(expected) >= 3
-    return Case(vs, nt, ["tests=%d" % len(expected), "rich" if rich >= 2 else "", "param-ct" if param_ct else ""] +
+    return Case(vs, nt, ["tests=%d" % len(expected), "rich" if rich >= 2 else "", "param-ct" if param_ct else "",
+                         "live" if live is not None else "", "wide" if wide else "", "unclosed" if started and not explicit and not spec.get("close", True) else ""] +
                 ["kind=" + e["kind"] for e in expected[:3]], {"final_events": [e[0] for e in ext.events][:20]})
 
 
 @st.composite
 def s_case(draw):
     h = draw(HIST)
+    ops = h["ops"]
     h["id_mod"] = draw(st.sampled_from([99, 99, 2, 1]))
+    h["close"] = draw(st.booleans())
+    h["live"] = draw(st.sampled_from([0, 0, 0, 1]))
+    h["wide"] = draw(st.booleans())
+    h["stretch"] = draw(st.sampled_from([1, 1, 1, 1, 1, 1, 1, 3]))
+    for op in ops:
+        if op["op"] == "time" and op["t"] == 3:
+            op["t"] = 4                      # with 1004: one instant under two UTC offsets
+        if op["op"] == "outcome" and op["kind"] == "skip":
+            z = draw(st.integers(0, 11))
+            if z == 0:
+                op["payload"]["reason_rep"] = 400          # a reason of some thousand characters
+            elif z == 1 and op["payload"]["form"] == "reason":
+                op["payload"]["form"] = "bare"             # addSkip(test): neither reason nor details
+    if not any(op["op"] == "startTestRun" for op in ops):
+        # the run is started on demand; in half of these an explicit second run follows the implicit one
+        stops = [i for i, op in enumerate(ops) if op["op"] == "stopTest"]
+        if stops and draw(st.booleans()):
+            j = draw(st.sampled_from(stops)) + 1
+            ops[j:j] = [{"op": "stopTestRun"}, {"op": "startTestRun"}]
     return h
+
+
+# ------------------------------------------------------------------ directed grid (exhaustive, the same at every seed)
+def _g(ops, **kw):
+    return dict({"ops": ops, "id_mod": 99, "close": True, "live": 0, "wide": False, "stretch": 1, "share": "none"}, **kw)
+
+
+def _payload(kind, **kw):
+    if kind in ("success", "uxsuccess"):
+        base = {"form": "none", "details": {}}
+    elif kind == "skip":
+        base = {"form": "reason", "reason": "because", "details": {}, "call": "pos"}
+    else:
+        base = {"form": "err", "details": {}, "exc": "ValueError", "call": "pos"}
+    return dict(base, **kw)
+
+
+def _test(i, kind="success", tk="case", pre=(), mid=(), **kw):
+    return list(pre) + [{"op": "startTest", "i": i, "tk": tk}] + list(mid) + [
+        {"op": "outcome", "kind": kind, "marker": i + 1, "payload": _payload(kind, **kw)}, {"op": "stopTest"}]
+
+
+_START, _STOP = {"op": "startTestRun"}, {"op": "stopTestRun"}
+_LOG = {"ct": 0, "chunks": [b"first line\n", "d\u00e9j\u00e0\n".encode("utf8")]}
+_BIN = {"ct": 3, "chunks": [b"\xff\x00", b"", b"\x80abc"]}
+
+
+def _time(t):
+    return {"op": "time", "t": t}
+
+
+def _tag(*new):
+    return {"op": "tags", "new": sorted(new), "gone": []}
+
+
+def _enum_grid():
+    kinds = H.KINDS
+    # 1. one instant under two UTC offsets: the second value is a new value
+    for a, b in ((4, 1004), (1004, 4), (0, 1000), (1000, 0)):
+        for run in (True, False):
+            for kind in ("success", "skip", "failure"):
+                for tk in ("case", "placeholder"):
+                    ops = ([_START] if run else []) + _test(0, kind, tk, pre=[_time(a)], mid=[_time(b)]) + _test(1, kind, tk, mid=[_time(a)])
+                    yield _g(ops + ([_STOP] if run else []))
+    # 2. long / non-ASCII reasons x every way of giving a reason
+    for form in ("reason", "reason+details", "details+reasondetail"):
+        for call in ("pos", "kw"):
+            for reason, rep in (("r", 5000), ("r\u00e9ason \u00fcnicode \u4e2d", 1), ("r\u00e9ason \u00fcnicode ", 400), ("two\nlines\r\n", 1), (" ", 1)):
+                for tk in ("case", "placeholder"):
+                    yield _g([_START] + _test(0, "skip", tk, form=form, call=call, reason=reason, reason_rep=rep,
+                                              details={} if form == "reason" else {"log": _LOG}) + [_STOP])
+    # 3. a run started on demand, stopped, then an explicit run: nothing of the first one is left
+    for first in ([_tag("t")], [_tag("t", "u"), _time(5)], [_time(5), _tag("w")], []):
+        for between in ([], [_tag("v")]):
+            for kind in ("success", "skip", "error"):
+                ops = list(first) + _test(0, kind) + between + [_STOP, _START] + _test(1, kind, "placeholder") + _test(2, kind)
+                yield _g(ops + [_STOP])
+                yield _g(ops, wide=True)
+    # 4. a run that nobody stops (a bare test.run(result)): every bracket is there when the last call returns
+    for kind in kinds:
+        for n in (1, 2, 3):
+            for tk in ("case", "placeholder"):
+                ops = []
+                for i in range(n):
+                    ops += _test(i, kind, tk, pre=[_tag("t")] if i == 1 else [], mid=[_time(i)] if n == 3 else [])
+                yield _g(ops, close=False)
+    for kind in kinds:
+        form = {"form": "details"} if kind != "skip" else {"form": "reason+details"}
+        yield _g(_test(0, kind, details={"log": _LOG, "x": _BIN}, **form) + _test(1, kind, details={"x": _BIN}, **form), close=False)
+    # 5. one Content object per name for three tests, reading differently at every evaluation
+    for kind in kinds:
+        form = {"form": "details"} if kind != "skip" else {"form": "reason+details"}
+        for dets in ({"log": _LOG}, {"log": _LOG, "x": _BIN}):
+            for run in (True, False):
+                ops = [_START] if run else []
+                for i in range(3):
+                    ops += _test(i, kind if i != 1 else "success", details=dets if i != 1 else {"log": _LOG}, **(form if i != 1 else {"form": "details"}))
+                yield _g(ops, live=1, close=run)
+    # 6. details of 12 chunks (a traceback has one chunk per line), empty ones among them
+    many = {"log": {"ct": 0, "chunks": [b"line %d\n" % i if i % 5 else b"" for i in range(12)]},
+            "x": {"ct": 3, "chunks": [bytes([i, 255 - i]) for i in range(12)]}}
+    for kind in kinds:
+        form = {"form": "details"} if kind != "skip" else {"form": "details+reasondetail"}
+        yield _g([_START] + _test(0, kind, details=many, **form) + [_STOP])
+        yield _g(_test(0, kind, "placeholder", details={"log": _LOG, "x": _BIN}, **form), stretch=4, close=False)
+    # 7. eight tests in one run, every outcome kind, the same id twice
+    for id_mod in (99, 3):
+        ops = [_START]
+        for i in range(8):
+            ops += _test(i, kinds[i % 6], ("case", "placeholder")[i % 2], pre=[_tag("tuvw"[i % 4])] if i % 3 == 0 else [], mid=[_time(i)])
+        yield _g(ops + [_STOP], id_mod=id_mod)
+        yield _g(ops + [_STOP], id_mod=id_mod, wide=True)
+    # 8. the same details dict object for a skip that also has a reason, and then for another test
+    for share in ("dict", "refill"):
+        for kind in kinds:
+            form = {"form": "details"} if kind != "skip" else {"form": "details"}
+            for dets in ({"log": _LOG}, {}):
+                yield _g([_START] + _test(0, "skip", form="reason+details", reason="first one's reason", details=dets) +
+                         _test(1, kind, details=dets, **form) + [_STOP], share=share)
+    # 9. addSkip(test) and nothing else
+    for tk in ("case", "placeholder"):
+        for run in (True, False):
+            ops = ([_START] if run else []) + _test(0, "skip", tk, form="bare") + _test(1, "skip", tk, form="reason", reason="") + _test(2, "skip", tk, form="bare", pre=[_tag("u")])
+            yield _g(ops + ([_STOP] if run else []), close=run)
+            yield _g(ops + ([_STOP] if run else []), close=run, wide=True)
+    # 10. every content-type row alone, next to a detail without chunks and one with only empty chunks
+    for cti in range(len(H.CT_SPECS)):
+        for kind in ("success", "skip"):
+            form = {"form": "details"} if kind != "skip" else {"form": "reason+details"}
+            dets = {"log": {"ct": cti, "chunks": [b"a", b"", b"tail"]}, "x": {"ct": cti, "chunks": []}, "stdout": {"ct": cti, "chunks": [b"", b""]}}
+            yield _g([_START] + _test(0, kind, ("case", "placeholder")[cti % 2], details=dets, **form) + [_STOP])
 
 
 def subchecks(tier):
     q = tier == "quick"
-    return [Sub("roundtrip_histories", run_case, s_case(), 2000 if q else 120000)]
+    return [Sub("roundtrip_histories", run_case, s_case(), 2000 if q else 120000),
+            Sub("directed_grid", run_case, enum=_enum_grid, enum_complete=True,
+                note="offset pairs, long / non-ASCII reasons x skip forms, on-demand then explicit run, unclosed runs, live contents, "
+                     "12-chunk details, 8 tests, shared dict after a skip with a reason, bare skips, wide tags and ids")]
